@@ -119,6 +119,11 @@ def _exc(ex):
     return "%s: %s" % (type(ex).__name__, re.sub(r"\s+", " ", str(ex))[:160])
 
 
+def _exc_key(ex):
+    code = getattr(ex, "code", None)
+    return type(ex).__name__ + (":" + str(code) if isinstance(code, str) else "")
+
+
 def diagnose(a, b, kinds=None):
     """Name the first difference between two schema objects (class of difference, concrete text)."""
     from hed.schema.hed_schema_constants import HedSectionKey
@@ -171,19 +176,21 @@ def round_trips(s, base, merged_opts, fmts, kinds=None):
                 p = _save(s, fmt, merged, "%s_%s" % (base, ms))
                 paths[(merged, fmt)] = p
             except Exception as ex:  # noqa
-                prob.append(("raises:save:%s:%s:%s" % (fmt, ms, type(ex).__name__), "saving as %s (%s) raised %s" % (fmt, ms, _exc(ex))))
+                prob.append(("raises:save:%s:%s:%s" % (fmt, ms, _exc_key(ex)), "saving as %s (%s) raised %s" % (fmt, ms, _exc(ex))))
                 continue
             try:
                 r = load_schema(p)
             except Exception as ex:  # noqa
-                prob.append(("raises:load:%s:%s:%s" % (fmt, ms, type(ex).__name__),
+                prob.append(("raises:load:%s:%s:%s" % (fmt, ms, _exc_key(ex)),
                              "the %s file saved %s cannot be loaded again: %s" % (fmt, ms, _exc(ex))))
                 continue
             objs[(merged, fmt)] = r
             if not (r == s):
                 k, text = diagnose(s, r, kinds)
                 prob.append(("neq:%s:%s:%s" % (fmt, ms, k), "saved as %s (%s) and reloaded: not equal to the original: %s" % (fmt, ms, text)))
-        got = [f for f in fmts if (merged, f) in objs]
+        # formats agree with one another (reported separately only when each reload equals the original, i.e. when the
+        # disagreement is not already reported above)
+        got = [f for f in fmts if (merged, f) in objs and objs[(merged, f)] == s]
         for f in got[1:]:
             if not (objs[(merged, got[0])] == objs[(merged, f)]):
                 k, text = diagnose(objs[(merged, got[0])], objs[(merged, f)], kinds)
@@ -519,8 +526,9 @@ def execute(item):
             res["drift"].append(("vehicle-load-failed", "generated MediaWiki text does not load: %s" % _exc(ex)))
             return res
         errs = s.check_compliance(check_for_warnings=True)
-        if errs:
+        if errs:      # outside the statement (it speaks of schemas that pass compliance): not judged
             res["drift"].append(("vehicle-noncompliant", "generated schema has compliance issues %s" % sorted({e["code"] for e in errs})))
+            return res
         # the loaded object against the specification's state (loader side of the model)
         got, want = project(s), _state_rows(body, conc["descs"])
         for sec in got:
@@ -546,7 +554,7 @@ def execute(item):
         # second generation: a schema that was LOADED FROM A MERGED file is saved again (header says merged)
         fmt2 = FORMATS[item["id"] % 3]
         r = objs.get((True, fmt2))
-        if r is not None and r == s:
+        if r is not None and r == s and not res["problems"]:
             p2, _, _ = round_trips(r, os.path.join(work, "t"), [False], [FORMATS[(item["id"] // 3) % 3]], kinds)
             res["problems"] += [("gen2:" + k, "schema reloaded from the merged %s file, then " % fmt2 + t) for k, t in p2]
             res["saves"] += 1
@@ -639,6 +647,28 @@ def run(ctx):
                 "merged/unmerged; (3) multi-library merges.  distinct = distinct abstract schema (or bundled schema x format x mode); "
                 "non-trivial = at least one edit or a bundled schema")
     _init_globals()
+    # ---------------- bundled schemas and multi-library merges start right away (they do not need TLC's output)
+    bund = [(v, p, ctx.work) for v, p in facts.bundled()]
+    bund.sort(key=lambda x: -os.path.getsize(x[1]))
+    libs = {}
+    for v, p in facts.bundled():
+        f = facts.load(v)
+        if f.library and f.with_standard:
+            libs[v] = (f.library, f.with_standard)
+    pairs = [((a, b), ctx.work, "mm%d" % k) for k, (a, b) in enumerate(
+        (a, b) for a in sorted(libs) for b in sorted(libs) if a != b and libs[a][1] == libs[b][1] and libs[a][0] != libs[b][0])]
+    pool = mp.get_context("fork").Pool(14)
+    try:
+        rb = pool.map_async(bundled_case, bund, chunksize=1)
+        rm = pool.map_async(multimerge_case, pairs, chunksize=1)
+        _run_rest(ctx, pool, rb, rm)
+    finally:
+        pool.terminate()
+        pool.join()
+
+
+def _run_rest(ctx, pool, rb, rm):
+    quick = ctx.quick
     # ---------------- design runs
     depth = 2 if quick else 3
     made = []
@@ -698,20 +728,10 @@ def run(ctx):
                         hdr=dict(c["hdr"], library=c["hdr"]["library"][:1]))
         items.append({"id": i, "case": c, "conc": concretise(body, ctx.seed * 1000003 + i), "work": ctx.work})
 
-    # ---------------- bundled schemas + multi-library merges + generated cases, in one pool
-    bund = [(v, p, ctx.work) for v, p in facts.bundled()]
-    libs = {}
-    for v, p in facts.bundled():
-        f = facts.load(v)
-        if f.library and f.with_standard:
-            libs[v] = (f.library, f.with_standard)
-    pairs = [((a, b), ctx.work, "mm%d" % k) for k, (a, b) in enumerate(
-        (a, b) for a in sorted(libs) for b in sorted(libs) if a != b and libs[a][1] == libs[b][1] and libs[a][0] != libs[b][0])]
-    with mp.get_context("fork").Pool(14) as pool:
-        rb = pool.map_async(bundled_case, bund, chunksize=1)
-        rm = pool.map_async(multimerge_case, pairs, chunksize=1)
-        rgc = pool.map_async(execute, items, chunksize=4)
-        rb, rm, rgc = rb.get(), rm.get(), rgc.get()
+    # ---------------- generated cases (same pool as the bundled schemas)
+    rgc = pool.map_async(execute, items, chunksize=2)
+    rb, rm, rgc = rb.get(), rm.get(), rgc.get()
+    rb.sort(key=lambda o: o["version"])
 
     # ---- A1 verdicts
     trace = {"schemas": [], "cases": []}
